@@ -63,10 +63,10 @@ def cex_to_behaviour(cexpath, src):
     return steps
 
 
-def mc_with_cex(v, scr, name, text, what):
+def mc_with_cex(v, scr, name, text, what, timeout=1800):
     """Run an MC config. A counterexample is replayed into the code and judged by the monitors on the real trace."""
     cexp = scr.path("cex-%s.json" % name)
-    r = run_mc(scr, name, text, extra=("-dumpTrace", "json", cexp))
+    r = run_mc(scr, name, text, extra=("-dumpTrace", "json", cexp), timeout=timeout)
     if r.ok:
         v.add_tlc(r, name)
         return r, None
@@ -445,8 +445,18 @@ def generic_core_check(prop, tier, replay, level, mc_list, sim_list, go_tests, i
         if replay:
             return replay_file(v, scr, prop, replay, invariants, known_map)
         # 1. MC
+        quick_instances = {n: (t, c) for (n, t, c) in mc_list(False)} if thorough else {}
         for (name, text, cfgrec) in mc_list(thorough):
-            r, cexp = mc_with_cex(v, scr, name, text, name)
+            try:
+                r, cexp = mc_with_cex(v, scr, name, text, name, timeout=1200 if thorough else 1800)
+            except MachineryError as e:
+                # thorough tier: an enlarged instance that TLC does not exhaust within 20 minutes is recorded as such (nothing was violated
+                # in what it explored) and the quick tier's instance of the same family, which is known to finish, is checked exhaustively
+                if not (thorough and "timed out" in str(e) and name in quick_instances and quick_instances[name][0] != text):
+                    raise
+                v.notes.setdefault("instances_not_exhausted_within_budget", []).append("%s (thorough bounds, 1200 s)" % name)
+                text, cfgrec = quick_instances[name]
+                r, cexp = mc_with_cex(v, scr, name, text, name)
             if cexp:
                 replay_cex_and_judge(v, scr, prop, cexp, cfgrec, invariants, known_map, name + ":" + str(r.violation))
         # 1b. the MC instance that exhibits a listed known finding (reproduced on the code each run)
